@@ -407,8 +407,8 @@ pub fn run_deviation(addr: &str, d: &Deviation, other: &mut Option<String>) -> R
         let is_err = r.get("error").map(|e| e.is_string()).unwrap_or(false);
         if !is_err {
             return Err(Fail::new(
-                format!("cert/deviation-accepted/{}/{}", STEPS[d.step], d.name.split(':').next().unwrap_or("")),
-                format!("step {} deviation `{}`: request {} was answered with a non-error reply {}", STEPS[d.step], d.name, req, r),
+                format!("cert/deviation-accepted/{}/{}", step_name(d.step), d.name.split(':').next().unwrap_or("")),
+                format!("step {} deviation `{}`: request {} was answered with a non-error reply {}", step_name(d.step), d.name, req, r),
             ));
         }
     }
@@ -500,8 +500,13 @@ fn replay(ctx: &mut Ctx, v: &Value, addr: &str) {
     }
 }
 
+/// `STEPS.len()` stands for "after End": the whole canonical sequence has been run.
+fn step_name(i: usize) -> &'static str {
+    STEPS.get(i).copied().unwrap_or("after-End")
+}
+
 fn dev_json(d: &Deviation) -> Value {
-    json!({"step": STEPS[d.step], "step_index": d.step, "deviation": d.name, "request": d.request})
+    json!({"step": step_name(d.step), "step_index": d.step, "deviation": d.name, "request": d.request})
 }
 
 pub fn run(args: &Args) -> ! {
@@ -563,6 +568,25 @@ pub fn run(args: &Args) -> ! {
             }
             all_devs.push(d);
         }
+    }
+    // a finished session: after End, the id is not good for another pass through the tests
+    for j in 1..STEPS.len() - 1 {
+        let mut p = table[j].clone();
+        p["client_id"] = json!("@@SELF@@");
+        let d = Deviation { step: STEPS.len(), name: format!("wrong-position:{}-after-End", STEPS[j]), request: mk_request(STEPS[j], Some(p), canon_flags(STEPS[j])), well_typed: true };
+        match pt::guard(|| run_deviation(&addr, &d, &mut None)) {
+            Ok(Verdict::Rejected(how)) => {
+                ctx.case(Some(hash64(&(STEPS.len(), &d.name))));
+                ctx.class(&format!("rejected-by:{}", how));
+                ctx.class("kind:wrong-position-after-End");
+            }
+            Ok(Verdict::Stalled) => stalls += 1,
+            Err(f) => {
+                ctx.case(None);
+                ctx.violation(&f.key, &f.what, "c19", dev_json(&d));
+            }
+        }
+        all_devs.push(d);
     }
     ctx.section("single_deviations", json!({"enumerated": all_devs.len(), "steps": STEPS.len(), "exhaustive": true}));
     // random double deviations: take a single deviation's request and apply a second leaf change
